@@ -1,0 +1,10 @@
+//go:build verif
+// +build verif
+
+package main
+
+import "github.com/vicanso/pike/cache"
+
+func verifPoint(name string) {
+	cache.VerifPoint(name)
+}
